@@ -933,7 +933,193 @@ def replay_reader(model, name):
     return {'reproduced': False, 'tried': [','.join(f) for f in cands][:4]}
 
 
-REPLAY = {'C20/main[': replay_reader}
+def replay_frequency(model, name):
+    """the counterexample of the frequency guard is one of the special float values: each is handed to the REAL main()"""
+    import json
+    from pyvc.runner import native_python
+    tried = []
+    for v in ('nan', 'inf', '-inf', '0', '-1', '1e100', '1e300'):
+        args = ['-f', v, '-w', '5,0,0,2,0,0,9,0.001', '--excitation-pulse=2']
+        r = native_python('c20_failsafe.py', ['replay', json.dumps({'args': args})])
+        tried.append(v)
+        if r['violations'] and not str(r['violations'][0].get('id', '')).startswith('known'):
+            return {'reproduced': True, 'input': {'args': args}, 'observed': r['violations'][:1]}
+    return {'reproduced': False, 'tried': tried}
+
+
+REPLAY = {'C20/main[': replay_reader, 'C20/main[frequency range]': replay_frequency}
+
+
+# ---------------------------------------------------------------- the frequency range test, in IEEE-754 semantics
+def t_frequency_guard(eng):
+    """`-f` is converted by argparse with float(): nan, inf and -inf are possible values.  The guard statements of main() that
+    test args.frequency (and return 23) are evaluated in z3's floating-point theory (Float64: comparisons with NaN are false),
+    NOT over the reals as everywhere else: whatever passes every guard is a finite number with 0 < f < 1e100.
+    (Over the reals `not 0 < f < 1e100` and `f <= 0 or f >= 1e100` are the same test; for NaN they are not.)"""
+    n = P + '/main[frequency range]/'
+    g = eng.get_fnode('main')
+    F64 = z3.Float64()
+    f = z3.FP('args.frequency', F64)
+    rm = z3.RNE()
+
+    def ev(e):
+        if isinstance(e, ast.BoolOp):
+            vs = [ev(v) for v in e.values]
+            return z3.And(vs) if isinstance(e.op, ast.And) else z3.Or(vs)
+        if isinstance(e, ast.UnaryOp) and isinstance(e.op, ast.Not):
+            return z3.Not(ev(e.operand))
+        if isinstance(e, ast.Compare):
+            parts = [e.left] + list(e.comparators)
+            vals = [num(x) for x in parts]
+            out = []
+            for op, a, b in zip(e.ops, vals, vals[1:]):
+                fn = {ast.Lt: z3.fpLT, ast.LtE: z3.fpLEQ, ast.Gt: z3.fpGT, ast.GtE: z3.fpGEQ, ast.Eq: z3.fpEQ,
+                      ast.NotEq: lambda x, y: z3.Not(z3.fpEQ(x, y))}.get(type(op))
+                if fn is None:
+                    raise Unres('comparison operator in the frequency guard')
+                out.append(fn(a, b))
+            return z3.And(out)
+        if isinstance(e, ast.Call) and ast.unparse(e.func) in ('np.isfinite', 'math.isfinite') and len(e.args) == 1:
+            x = num(e.args[0])
+            return z3.And(z3.Not(z3.fpIsNaN(x)), z3.Not(z3.fpIsInf(x)))
+        if isinstance(e, ast.Call) and ast.unparse(e.func) in ('np.isnan', 'math.isnan') and len(e.args) == 1:
+            return z3.fpIsNaN(num(e.args[0]))
+        raise Unres('expression form in the frequency guard: %s' % ast.unparse(e)[:40])
+
+    def num(e):
+        if ast.unparse(e).replace(' ', '') == 'args.frequency':
+            return f
+        if isinstance(e, ast.Constant) and isinstance(e.value, (int, float)) and not isinstance(e.value, bool):
+            return z3.FPVal(float(e.value), F64)
+        if isinstance(e, ast.UnaryOp) and isinstance(e.op, ast.USub):
+            return z3.fpNeg(num(e.operand))
+        raise Unres('operand in the frequency guard: %s' % ast.unparse(e)[:40])
+
+    from pyvc.source import Unresolved as Unres
+    guards = [st for st in g.body if isinstance(st, ast.If)
+              and any(ast.unparse(t).replace(' ', '') == 'args.frequency' for t in ast.walk(st.test) if isinstance(t, ast.Attribute))
+              and not any(isinstance(t, ast.Attribute) and t.attr.startswith('frequency_') for t in ast.walk(st.test))
+              and any(isinstance(t, ast.Return) for t in ast.walk(st))]
+    if not guards:
+        raise Unres('a guard statement on args.frequency in main')
+    eng.oblige(n + 'guard-found', True, detail=str([ast.unparse(x.test) for x in guards]))
+    rejects = z3.Or([ev(x.test) for x in guards])
+    for x in guards:
+        rets = [t for t in ast.walk(x) if isinstance(t, ast.Return)]
+        eng.oblige(n + 'a-rejected-frequency-returns-23', all(isinstance(t.value, ast.Constant) and t.value.value == 23 for t in rets))
+    sol = z3.Solver()
+    sol.set('timeout', 20000)
+    good = z3.And(z3.Not(z3.fpIsNaN(f)), z3.fpGT(f, z3.FPVal(0.0, F64)), z3.fpLT(f, z3.FPVal(1e100, F64)))
+    sol.add(z3.Not(rejects), z3.Not(good))
+    r = sol.check()
+    detail = ''
+    if r == z3.sat:
+        detail = 'accepted: %s' % sol.model()[f]
+    eng.oblige(n + 'whatever-passes-is-a-finite-number-between-0-and-1e100-(IEEE-semantics:-nan-inf-rejected)', r == z3.unsat, detail=detail)
+    sol2 = z3.Solver()
+    sol2.add(rejects, z3.fpEQ(f, z3.FPVal(7.1, F64)))
+    eng.oblige(n + 'an-ordinary-frequency-is-accepted', sol2.check() == z3.unsat)
+    eng.cover('frequency-guard')
+
+
+class _DeMorganOverReals(ast.NodeTransformer):
+    def visit_If(self, node):
+        self.generic_visit(node)
+        if ast.unparse(node.test).replace(' ', '') == 'not0<args.frequency<1e+100' or \
+                (isinstance(node.test, ast.UnaryOp) and 'args.frequency' in ast.unparse(node.test) and 'frequency_' not in ast.unparse(node.test)):
+            node.test = ast.parse('args.frequency <= 0 or args.frequency >= 1e100').body[0].value
+        return node
+
+
+U_FREQ = Unit(P + '/main[frequency range]', ['main'], t_frequency_guard, SCH,
+              slices={'main': 'the top-level `if` statements that test args.frequency and return'},
+              notes='IEEE-754 (z3 FloatingPoint, Float64) semantics for the comparisons of this one guard; the only unit that does not read floats as reals',
+              canaries=[Canary('range-test-rewritten-as-if-floats-were-reals', 'main', _DeMorganOverReals,
+                               [P + '/main[frequency range]/whatever-passes'])])
+UNITS = UNITS + [U_FREQ]
+
+
+# ---------------------------------------------------------------- frame: what a reader loop may carry from one option to the next
+LOOP_RESULTS = {
+    # loop over ...                  : the containers (defined before the loop) that its body may extend: the loop's declared result
+    'enumerate(args.arc)': {'geo'}, 'enumerate(args.helix)': {'geo'}, 'enumerate(args.wire)': {'geo'},
+    'args.geo_rotate': {'geo_transforms'}, 'args.geo_translate': {'geo_transforms'}, 'args.geo_scale': set(),
+    'args.taper_wire': set(), 'enumerate(args.medium)': {'media'},
+    'zip(args.excitation_pulse,args.excitation_voltage)': set(),
+    'args.load': {'loads'}, 'args.rlc_load': {'loads'}, 'args.trap_load': {'loads'},
+    'args.laplace_load_a': {'laplace'}, 'enumerate(args.laplace_load_b)': {'laplace'},
+    'args.attach_load': {'used_loads'},
+    'args.skin_effect_conductivity': set(), 'args.skin_effect_resistivity': set(), 'args.insulation_load': set(),
+    'args.option': {'options'},
+}
+_MUTATORS = ('append', 'add', 'extend', 'update', 'pop', 'insert', 'remove', 'clear', 'sort', 'setdefault', 'discard')
+
+
+def t_loop_state(eng):
+    """Each occurrence of a repeatable option is read by one iteration of a loop of main().  The units above prove one
+    iteration; what lets them speak for the whole loop is this frame clause: an iteration changes nothing that a later
+    iteration of the same loop reads, except the loop's declared result (the list of objects / loads / transformations it
+    collects) and the model itself.  Checked on the AST: the only local containers defined before the loop that the body
+    mutates (method call, subscript store, augmented assignment) are the declared ones."""
+    n = P + '/main[reader loops]/'
+    g = eng.get_fnode('main')
+    before = set()
+    seen = 0
+    for st in g.body:
+        if isinstance(st, ast.For) and 'args.' in ast.unparse(st.iter):
+            key = ast.unparse(st.iter).replace(' ', '')
+            own = set(t.id for t in ast.walk(st.target) if isinstance(t, ast.Name))
+            mutated = set()
+            for b in st.body:
+                for t in ast.walk(b):
+                    nm = None
+                    if isinstance(t, ast.Call) and isinstance(t.func, ast.Attribute) and t.func.attr in _MUTATORS \
+                            and isinstance(t.func.value, ast.Name):
+                        nm = t.func.value.id
+                    elif isinstance(t, ast.Subscript) and isinstance(t.ctx, ast.Store) and isinstance(t.value, ast.Name):
+                        nm = t.value.id
+                    elif isinstance(t, ast.AugAssign) and isinstance(t.target, ast.Name):
+                        nm = t.target.id
+                    if nm is not None and nm in before and nm not in own:
+                        mutated.add(nm)
+            if key in LOOP_RESULTS:
+                seen += 1
+                extra = sorted(mutated - LOOP_RESULTS[key])
+                eng.oblige(n + 'an-iteration-leaves-nothing-for-the-next-but-the-declared-result', not extra,
+                           detail='%s: %s' % (key, extra))
+            elif key.startswith('range('):
+                pass            # the frequency sweep: not a reader loop
+            else:
+                eng.notes.append('reader loop without a declaration: %s' % key)
+        for t in ast.walk(st):
+            if isinstance(t, ast.Name) and isinstance(t.ctx, ast.Store):
+                before.add(t.id)
+    if seen < 10:
+        from pyvc.source import Unresolved
+        raise Unresolved('the reader loops of main (found %d of %d)' % (seen, len(LOOP_RESULTS)))
+    eng.cover('reader-loops')
+
+
+class _RememberAttachments(ast.NodeTransformer):
+    """a set of "already attached" keys kept across the --attach-load options"""
+
+    def visit_FunctionDef(self, node):
+        if node.name != 'main':
+            return node
+        out = []
+        for st in node.body:
+            if isinstance(st, ast.For) and ast.unparse(st.iter).replace(' ', '') == 'args.attach_load':
+                out.append(ast.parse('seen_att = set ()').body[0])
+                st.body = [ast.parse('seen_att.add (a)').body[0]] + st.body
+            out.append(st)
+        node.body = out
+        return node
+
+
+U_LOOPSTATE = Unit(P + '/main[reader loops]', ['main'], t_loop_state, SCH, kind='frame',
+                   canaries=[Canary('attach-loop-remembers-earlier-options', 'main', _RememberAttachments,
+                                    [P + '/main[reader loops]/an-iteration'])])
+UNITS = UNITS + [U_LOOPSTATE]
 
 
 # a load that the option readers accept must not make the numeric stage divide by zero: the constructors the readers call
